@@ -117,6 +117,30 @@ where StandardNormal: Distribution<F>, Exp1: Distribution<F>, Open01: Distributi
                         }
                     }
                 }
+                // R3t: Triangular / Pert under a GENERAL affine map (non-dyadic location and scale): the mapped distribution is built from the
+                // rounded images of (min, max, mode); its sample must be the affine image of the base sample up to rounding, with the same words
+                // (Pert at its symmetric point is left out: Beta::new orders its two parameters, and the rounded images of a symmetric
+                // triple are not symmetric, so the mapped sampler may legitimately be the mirror image of the base one)
+                if matches!(*fam, "Triangular" | "Pert") && !(*fam == "Pert" && sh[2] - sh[0] == sh[1] - sh[2]) {
+                    let (l2, s2) = [(f(0.1), f(0.3)), (f(-2.7), f(1.9)), (f(10.3), f(0.07)), (f(0.0), f(3.3))][si % 4];
+                    if let (Some(d0), Some(dm)) = (build::<F>(fam, sh, F::zero(), F::one()), build::<F>(fam, sh, l2, s2)) {
+                        let (mut ra, mut rb) = (rng0.clone(), rng0.clone());
+                        let (o0, o1) = (guarded(|| d0.sample(&mut ra)), guarded(|| dm.sample(&mut rb)));
+                        if let (Ok(b0), Ok(g)) = (o0, o1) {
+                            let bv: F = to_f(&b0); let gv: F = to_f(&g);
+                            let refv = l2 + s2 * bv;
+                            // judged where the image is not close to zero (relative precision is meaningless there): |ref| >= scale / 8
+                            // ... and the base sample is not within 2^-20 of an end of [min, max] (the square root next to an end amplifies the
+                            // rounding of the mapped corners to about sqrt(ulp))
+                            let edge = (sh[1] - sh[0]) * f(9.5367431640625e-7);
+                            let big = refv.abs() >= s2.abs() / f(8.0) && bv - sh[0] >= edge && sh[1] - bv >= edge;
+                            let finite = refv.is_finite() && gv.is_finite();
+                            out.push(json!({"op": "r3t", "fam": fam, "ft": F::NAME, "res": "Ok", "wa": ra.words(), "wb": rb.words(), "finite": finite, "big": big,
+                                "got": if finite { ord_limbs(gv) } else { vec![0, 0, 0] }, "ref": if finite { ord_limbs(refv) } else { vec![0, 0, 0] },
+                                "show": [format!("{:e}", bv), format!("{:e}", gv), format!("{:e}", refv)], "params": [format!("{:e}", l2), format!("{:e}", s2)], "stream": tag}).to_string());
+                        }
+                    }
+                }
                 // LogNormal(mu, sigma).sample == exp(Normal(mu, sigma).sample) on the same stream
                 if *fam == "LogNormal" {
                     if let Some(dn) = build::<F>("Normal", sh, loc, scale) {
